@@ -66,8 +66,21 @@ pub fn clean(
     let parsed = parser::parse(&tokens);
     let remover = build_remover(config, content.clone());
     let (removed, markers) = remover.remove(parsed, &content);
+    #[cfg(feature = "verif-hooks")]
+    crate::verif::emit(|| crate::verif::Event::CleanMarkers {
+        markers: markers
+            .iter()
+            .map(|(r, p)| (r.start, r.end, *p))
+            .collect(),
+        source_len: content.len(),
+        removed_len: removed.len(),
+    });
 
     let removed_pos = remover::get_removed_pos(&markers);
+    #[cfg(feature = "verif-hooks")]
+    crate::verif::emit(|| crate::verif::Event::RemovedPos {
+        positions: removed_pos.clone(),
+    });
     let formatter = build_formatters();
     let structure_formatters: Vec<Box<dyn BlockFormatter>> = vec![Box::new(
         formatter::block_indent_remover::BlockIndentRemover {},
@@ -92,6 +105,14 @@ pub fn list(
         .into_iter()
         .map(|v| (v, true))
         .collect();
+    #[cfg(feature = "verif-hooks")]
+    crate::verif::emit(|| crate::verif::Event::ListMarkers {
+        all: false,
+        markers: markers
+            .iter()
+            .map(|((r, p), ready)| (r.start, r.end, *p, *ready))
+            .collect(),
+    });
     let line_map = build_line_map(&content);
 
     match format {
@@ -113,6 +134,14 @@ pub fn list_all(
     let parsed = parser::parse(&tokens);
     let remover = build_remover(config, content.clone());
     let markers = remover.build_remove_marker_all(&parsed);
+    #[cfg(feature = "verif-hooks")]
+    crate::verif::emit(|| crate::verif::Event::ListMarkers {
+        all: true,
+        markers: markers
+            .iter()
+            .map(|((r, p), ready)| (r.start, r.end, *p, *ready))
+            .collect(),
+    });
     let line_map = build_line_map(&content);
 
     match format {
